@@ -28,6 +28,11 @@ func main() {
 		strMax = 1100
 	}
 	d.StringLengths(strMax)
+	nsMax := 70
+	if run.Thorough() {
+		nsMax = 300
+	}
+	d.NamespaceDepths(nsMax)
 	d.F2(strLen)
 	d.F3(levels, true)
 	all := make([]zapcore.Level, 0, 256)
